@@ -126,6 +126,15 @@ class BuildError(Exception):
     pass
 
 
+def _used(path):
+    """Mark a cache entry as in use (gc_cache keeps what was used recently)."""
+    try:
+        os.utime(path, None)
+    except OSError:
+        pass
+    return path
+
+
 def compile_obj(src, variant="asan", extra=(), extra_hash=""):
     """Compile one source file (absolute path) to a cached object; returns its path."""
     flags = BASEFLAGS + VARIANTS[variant] + list(extra) + ["-I" + d for d in include_dir()]
@@ -135,7 +144,7 @@ def compile_obj(src, variant="asan", extra=(), extra_hash=""):
     key = sha(read(src), headers_hash(), " ".join(flags), src, extra_hash)
     out = os.path.join(CACHE, "obj", "%s-%s.o" % (os.path.basename(src), key))
     if os.path.exists(out):
-        return out
+        return _used(out)
     os.makedirs(os.path.dirname(out), exist_ok=True)
     with Lock("obj-" + os.path.basename(out)):
         if os.path.exists(out):
@@ -161,7 +170,7 @@ def link(objs, out_name, variant="asan", extra_link=()):
     key = sha(*[os.path.basename(o) for o in objs], variant, " ".join(extra_link))
     out = os.path.join(CACHE, "bin", "%s-%s" % (out_name, key))
     if os.path.exists(out):
-        return out
+        return _used(out)
     os.makedirs(os.path.dirname(out), exist_ok=True)
     with Lock("bin-" + os.path.basename(out)):
         if os.path.exists(out):
@@ -253,6 +262,7 @@ def gen_schema(name="utest", xml_path=None, prefix=None, ns=None, extra_args=Non
                     raise BuildError("f8c generated nothing for %s:\n%s" % (xml_path, out[-4000:]))
                 open(done, "w").write("ok")
     cpps = sorted(glob.glob(os.path.join(d, "*.cpp")))
+    _used(d)
     return d, cpps, prefix, ns
 
 
@@ -482,7 +492,7 @@ def ocaml_driver(pid):
     key = sha(read(model), read(prelude), read(drv))
     out = os.path.join(CACHE, "bin", "driver-%s-%s" % (pid, key))
     if os.path.exists(out):
-        return out
+        return _used(out)
     with Lock("ocaml-" + pid):
         if os.path.exists(out):
             return out
@@ -506,10 +516,13 @@ def ocaml_driver(pid):
     return out
 
 
-def gc_cache(max_gb=20):
-    """Drop the oldest cached objects when the cache grows beyond max_gb."""
+def gc_cache(max_gb=40, keep_hours=8):
+    """Drop the least recently used cached objects when the cache grows beyond max_gb.  Entries used
+    (built or returned from the cache: _used() refreshes their times) within the last keep_hours are
+    never removed, so a check that is running cannot lose a binary it has just been handed."""
     files = []
     total = 0
+    now = time.time()
     for sub in ("obj", "bin", "gen"):
         d = os.path.join(CACHE, sub)
         if not os.path.isdir(d):
@@ -523,11 +536,13 @@ def gc_cache(max_gb=20):
             sz = st.st_size
             if os.path.isdir(p):
                 sz = sum(os.path.getsize(os.path.join(dp, f)) for dp, _, fn in os.walk(p) for f in fn)
-            files.append((st.st_atime, sz, p))
+            files.append((max(st.st_atime, st.st_mtime), sz, p))
             total += sz
     files.sort()
     while total > max_gb * 2**30 and files:
-        _, sz, p = files.pop(0)
+        used, sz, p = files.pop(0)
+        if now - used < keep_hours * 3600:
+            break
         if os.path.isdir(p):
             shutil.rmtree(p, ignore_errors=True)
         else:
